@@ -303,6 +303,44 @@ func scJunk(r *Run) {
 		}
 	}
 
+	// the attacker also tampers with its OWN, otherwise valid, handshake messages in flight: the two
+	// length prefixes inside the encrypted certificate block are set (by XOR, it is a stream cipher and the
+	// attacker knows its own plaintext) to values at and around the block length
+	atkLeafLen := map[string]int{}
+	n.Tap = func(d *Dgram) bool {
+		ll, ok := atkLeafLen[d.Src.String()]
+		if !ok || len(d.Data) < 16 {
+			return true
+		}
+		off := -1
+		switch d.Data[0] {
+		case 0x05:
+			off = 8
+		case 0x08:
+			off = 4 + kemKeyLen + kemCtLen
+		}
+		if off < 0 || len(d.Data) < off+2 || r.Intn("tamper", 2) == 0 {
+			return true
+		}
+		enc := int(d.Data[2])<<8 | int(d.Data[3])
+		target := []int{enc - 1, enc - 2, enc, enc - 3, enc - 4, enc + 1, 0xffff, 0, ll + 1, ll - 1}[r.Intn("tamper", 10)]
+		if target < 0 {
+			target = 0
+		}
+		c := d.clone()
+		x := ll ^ target
+		c.Data[off] ^= byte(x >> 8)
+		c.Data[off+1] ^= byte(x)
+		if r.Intn("tamper", 3) == 0 && len(c.Data) >= off+2+ll+2 { // the second vector's prefix instead
+			c.Data[off], c.Data[off+1] = d.Data[off], d.Data[off+1]
+			c.Data[off+2+ll] ^= byte(r.U64("tamper"))
+			c.Data[off+2+ll+1] ^= byte(1 + r.Intn("tamper", 255))
+		}
+		c.Mut = fmt.Sprintf("length-prefix:=%d", target)
+		r.CountFault("junk-own-handshake-length-prefix", 1)
+		n.Redeliver(c, n.Cfg.Latency)
+		return false
+	}
 	// attacker
 	third := Addr(66, 6000)
 	nJunk := 20 + r.Intn("cfg", 200)
@@ -445,6 +483,9 @@ func scJunk(r *Run) {
 				}
 			}
 			aaddr := Addr(byte(120+r.Intn("junk", 100)), 7000+i)
+			if lb, err := cfg.Leaf.Marshal(); err == nil {
+				atkLeafLen[aaddr.String()] = len(lb)
+			}
 			ep := n.Listen("atk", aaddr, srvAddr)
 			c := transport.NewClient(ep, srvAddr, cfg)
 			atkClients = append(atkClients, c)
